@@ -178,4 +178,11 @@ MergeEffectProp == [][MergeEffect]_vars
    v unit adds.  Checked as a state-function identity on every reachable sketch. *)
 RECURSIVE UnitAdds(_, _, _)
 UnitAdds(skv, cols, n) == IF n = 0 THEN skv ELSE UnitAdds(LinAdd(skv, cols, NOf(1)), cols, n - 1)
+ValueIsUnitAdds ==
+  \A s \in Slots, k \in Keys, n \in 0..4 : LinAdd(sk[s], Col(k), NOf(n)) = UnitAdds(sk[s], Col(k), n)
+\* update(list) = add per element, update(dict) = add(key, value) per item, in order
+BatchIsLoop ==
+  \A s \in Slots, j, k \in Keys :
+     /\ LinAddAll(sk[s], << <<Col(j), NOf(1)>>, <<Col(k), NOf(1)>> >>) = LinAdd(LinAdd(sk[s], Col(j), NOf(1)), Col(k), NOf(1))
+     /\ LinAddAll(sk[s], << <<Col(j), NOf(2)>>, <<Col(k), NOf(1)>> >>) = LinAdd(LinAdd(sk[s], Col(j), NOf(2)), Col(k), NOf(1))
 =============================================================================
